@@ -113,9 +113,17 @@ def run(lines, out, args):
             # borrowed from another interface): `begin = start`, `execute = IRunner["run"]`, `x = Attribute("y")`
             from zope.interface.interface import fromFunction
             return Attribute("zz%s" % n) if d == "A" else fromFunction(mkfunc("zz" + n, psig(d[1:]), False))
+        if d != "A" and int(n) % 3 == 0:
+            # a method description that is an instance of a SUBCLASS of Method (a framework's own description class)
+            from zope.interface.interface import fromFunction, Method
+            m = fromFunction(mkfunc("m" + n, psig(d[1:]), False))
+            m.__class__ = type("FrameworkMethod", (Method,), {})
+            return m
         return Attribute("attr m%s" % n) if d == "A" else mkfunc("m" + n, psig(d[1:]), False)
 
     IOther = InterfaceClass("IOther", (Interface,), {}, __module__="zi.gen.verify")
+    IInner = InterfaceClass("IInner", (Interface,), {"zz_never_there": Attribute("no candidate has it")}, __module__="zi.gen.verify")
+    nested = []
 
     def candidate(elems, cls_mode, declared_for, on_instance=False):
         body = {}
@@ -154,7 +162,16 @@ def run(lines, out, args):
             elif c == "N":
                 (body if cls_mode else inst_attrs)[name] = 42
             elif c == "P":
-                body[name] = property(lambda self: 7)
+                # reading the attribute verifies the SAME object against ANOTHER interface (one it does not meet): that nested
+                # verification is a verification like any other
+                def getter(self):
+                    try:
+                        verifyObject(IInner, self, tentative=True)
+                        nested.append("accepted")
+                    except Invalid:
+                        nested.append("refused")
+                    return 7
+                body[name] = property(getter)
         if on_instance and declared_for is not None and not cls_mode:
             # an instance without __dict__ (slots incl. __provides__), the class declares something else, the verified
             # interface is declared on the instance only
@@ -173,6 +190,7 @@ def run(lines, out, args):
 
     def verify_and_judge(I, elems, C, ob, cls_mode, tentative, declared):
         cand = C if cls_mode else ob
+        del nested[:]
         try:
             (verifyClass if cls_mode else verifyObject)(I, cand, tentative=tentative)
             got = "ok"
@@ -214,6 +232,8 @@ def run(lines, out, args):
                 # on an instance the property has been evaluated: the attribute is the integer 7, not callable
                 fails.append("BM:" + n)
         want = "ok" if not fails else ("single " if len(fails) == 1 else "multi ") + " ".join(fails)
+        if "accepted" in nested:
+            got += " NESTED-VERIFICATION-ACCEPTED"
         return got, want
 
     for line in lines:
